@@ -1,6 +1,6 @@
 ----------------------------- MODULE Roller_Trace -----------------------------
 (* Trace validation for C29: every recorded Dial history of the real Roller (one ndjson line per scenario:
-   [id, configured, preset, steps: [accept, rmode, tcpfail, n, dials: [caller, ret, seen, sok, snis, given, conn, csni, cseed],
+   [id, configured, preset, steps: [accept, stall, rmode, tcpfail, n, dials: [caller, ret, seen, sok, snis, given, conn, csni, cseed, ms, tmo],
    working, wseed, stray]]) must be a behaviour of Roller: the shuffles, the interleaving of concurrent callers and the
    numbering of fresh seeds are found by TLC; what the test server saw, what Dial returned and WorkingHelloID after the
    step are bound to the log.  `seen` is a sequence of <<id, k>>: k = 0 for a recognised parrot, else the number the
@@ -15,9 +15,14 @@ TInit == /\ t \in 1..Len(Traces)
 Rec(k, c) == LET ds == Steps[k].dials IN ds[CHOOSE i \in 1..Len(ds) : ds[i].caller = c]
 IsPrefix(a, b) == Len(a) <= Len(b) /\ \A i \in 1..Len(a) : a[i] = b[i]
 
+\* Every attempt has its own TlsHandshakeTimeout (tmo, ms): a call that met n stalled IDs lasts at least n timeouts (each stalled
+\* attempt runs into its full timeout) and at most n + 1 timeouts plus slack (the other attempts are answered at once).
+SlackMs == 3000
+NStalled(c) == Cardinality({i \in 1..Len(tried[c]) : Stalled(tried[c][i])})
 DialMatches(k, c) ==
   LET r == Rec(k, c) IN
   /\ r.ret = result[c].kind /\ r.seen = tried[c]
+  /\ r.ms * 10 >= NStalled(c) * r.tmo * 9 /\ r.ms <= (NStalled(c) + 1) * r.tmo + SlackMs
   /\ \A i \in 1..Len(r.snis) : r.snis[i] = r.given                 \* SNI is the server name given to Dial
   /\ r.ret = "ok" => /\ r.conn = result[c].id[1] /\ r.csni = r.given
                      /\ (r.cseed # "") <=> IsRandom(result[c].id)   \* the returned UConn of a randomized ID carries its seed
@@ -33,7 +38,7 @@ StepMatches(k) ==
   /\ \A d1, d2 \in OkRandom(k) : (d1.cseed = d2.cseed) <=> (d1.seen[Len(d1.seen)] = d2.seen[Len(d2.seen)])
 
 TBegin == /\ nsteps < Len(Steps) /\ (nsteps >= 1 => StepMatches(nsteps))
-          /\ LET st == Steps[nsteps + 1] IN BeginStep(Range(st.accept), st.rmode, st.tcpfail, st.n)
+          /\ LET st == Steps[nsteps + 1] IN BeginStep(Range(st.accept), Range(st.stall), st.rmode, st.tcpfail, st.n)
           /\ t' = t
 \* sok[j]: did the test server complete the handshake of the j-th hello of this call
 TCaller == /\ \E c \in Callers :
